@@ -1,13 +1,15 @@
 (* C07 for programs that actually READ scoped values (ReadVar = AsyncScopedValue.get()).
 
-   Milestone 1 (this file): non-branching reads.  [rtree0] = tree programs plus reads whose continuation does
-   not depend on the value read; [erase] removes the reads.  Proved here:
-     - [erase] maps rtree0 to tree and wnr to wn (so every C07/C01 tree theorem applies to [erase p]);
-     - the class invariant: every program the machine holds during a run of an rtree0 program (the running
-       body, every suspended generator) is rtree0 (RHc, rh_run);
+   Non-branching reads.  [rtree0] = tree programs plus reads whose continuation does not depend on the value
+   read; [wnr] = wn plus reads; [erase] removes the reads.  Route:
+     - [erase] maps rtree0 to tree and wnr to wn (tree_erase, wn_erase);
+     - the class invariant: every program the machine holds during a run of an rtree0 program is rtree0 (rh_run);
      - the state erasure [est]/[ecfg] (generators erased entry-wise, EvRead events filtered out of the trace)
-       and its commutation with the state-transforming helpers of Machine.v.
-   See the end of the file for what is and is not concluded. *)
+       commutes with every state-transforming helper of Machine.v and with [step] except at a read, where the
+       erased configuration does not move (step_est, step_read_est); hence the erased run of p is a run of
+       [erase p] with at most as many steps, prefix by prefix (run_est, sim_run; no_unwind carries over);
+     - Section Transport: the C07 tree theorems and the C01 value theorem for rtree0 programs, and the value an
+       actual read returns (actual_read_value_rtree0). *)
 From Asynq Require Import Machine Seq proofs.ProgProofs proofs.MachineFrame proofs.MachineC05 proofs.MachineC08 proofs.MachineC01
   proofs.MachineDFS proofs.MachineC04 proofs.MachineC04B proofs.MachineC01S proofs.MachineDFSS proofs.MachineC04S
   proofs.MachineC05T proofs.MachineC03T proofs.MachineSteps proofs.MachineKeep proofs.MachineC07.
@@ -916,13 +918,77 @@ Section Transport.
   Qed.
 End Transport.
 
-(* STATUS.  Proved above: the class lemmas (tree_erase, wn_erase), the class invariant of rtree0 runs (rh_run,
-   rtree0_run_class: a read met by the machine never branches, so erasing it is sound whatever value it got), and
-   [helper (est s) = est (helper s)] for put, set_task, enter_ctx, pause_plain, exit_ctx, complete_task,
-   accept_error, resume1, pause1, resume_contexts, pause_contexts, complete_item, flush_body, flush_batch,
-   first_max, schedule_batch, create (with erase_fexpr).
-   NOT yet proved (needed for the stuttering simulation  ecfg (step P c) = step P (ecfg c)  or  = ecfg c  at a read):
-   the same commutation for select / continue_with_batch (from first_max_est), inst (from create_est, by
-   ystruct_ind2 with ymap erase_leaf), and the case analysis of [step] itself; then the transport of
-   reads_see_enclosing_overrides_tree / reads_innermost_tree / values_restored_tree / async_eq_seq_tree from the
-   run of [erase p] to the run of p (var_get, layers, tasks, tk_ctxs are untouched by est). *)
+(* ------------------------------------------------------------------ non-vacuity: a concrete run with reads *)
+Definition c07r_fin (o : outcome) : prog := match o with Ok v => Ret v | Err e => Raise e end.
+Definition c07r_child : prog :=
+  ReadVar 0 (fun _ =>
+  Enter (COverride 1 0 (VInt 30))
+    (ReadVar 0 (fun _ =>
+     Yield (YLeaf (LNew (FItem 0 1 (ASet (VInt 5)))))
+       (fun o => ReadVar 0 (fun _ =>
+          Exit (COverride 1 0 (VInt 30)) (ReadVar 0 (fun _ => c07r_fin o))))))).
+Definition c07r_demo : prog :=
+  ReadVar 0 (fun _ =>
+  Enter (COverride 1 0 (VInt 10)) (Enter (COverride 2 0 (VInt 20))
+    (ReadVar 0 (fun _ =>
+     Yield (YLeaf (LNew (FTask c07r_child)))
+       (fun o => ReadVar 0 (fun _ =>
+          Exit (COverride 2 0 (VInt 20)) (ReadVar 0 (fun _ =>
+          Exit (COverride 1 0 (VInt 10)) (ReadVar 0 (fun _ => c07r_fin o)))))))))).
+
+Definition c07r_obs (e : event) : bool :=
+  match e with EvRead _ _ _ | EvFlush _ _ _ => true | _ => false end.
+
+Lemma c07r_fin_ok o : rtree0 (c07r_fin o) /\ wnr [] (c07r_fin o).
+Proof. destruct o; split; constructor. Qed.
+
+Lemma c07r_child_ok : rtree0 c07r_child /\ wnr [] c07r_child.
+Proof.
+  unfold c07r_child. split.
+  - apply rtree0_read; [intros _|intros; reflexivity]. apply rtree0_enter; [reflexivity|].
+    apply rtree0_read; [intros _|intros; reflexivity].
+    apply rtree0_yield; [intros l [<-|[]]; repeat constructor|]. intros o.
+    apply rtree0_read; [intros _|intros; reflexivity]. apply rtree0_exit; [reflexivity|].
+    apply rtree0_read; [intros _|intros; reflexivity]. apply c07r_fin_ok.
+  - apply wnr_read. intros _. apply wnr_enter; [intros []|]. cbn [app]. apply wnr_read. intros _.
+    apply wnr_yield; [intros q [E|[]]; discriminate|]. intros o. apply wnr_read. intros _.
+    apply (wnr_exit [] (COverride 1 0 (VInt 30))). apply wnr_read. intros _. apply c07r_fin_ok.
+Qed.
+
+Lemma c07r_demo_ok : rtree0 c07r_demo /\ wnr [] c07r_demo.
+Proof.
+  unfold c07r_demo. split.
+  - apply rtree0_read; [intros _|intros; reflexivity]. apply rtree0_enter; [reflexivity|]. apply rtree0_enter; [reflexivity|].
+    apply rtree0_read; [intros _|intros; reflexivity].
+    apply rtree0_yield; [intros l [<-|[]]; apply rl0_new, rf0_task, c07r_child_ok|]. intros o.
+    apply rtree0_read; [intros _|intros; reflexivity]. apply rtree0_exit; [reflexivity|].
+    apply rtree0_read; [intros _|intros; reflexivity]. apply rtree0_exit; [reflexivity|].
+    apply rtree0_read; [intros _|intros; reflexivity]. apply c07r_fin_ok.
+  - apply wnr_read. intros _. apply wnr_enter; [intros []|]. cbn [app].
+    apply wnr_enter; [cbn; intros [E|[]]; discriminate|]. cbn [app]. apply wnr_read. intros _.
+    apply wnr_yield; [intros q [E|[]]; inversion E; subst; apply c07r_child_ok|]. intros o. apply wnr_read. intros _.
+    apply (wnr_exit [COverride 1 0 (VInt 10)] (COverride 2 0 (VInt 20))). apply wnr_read. intros _.
+    apply (wnr_exit [] (COverride 1 0 (VInt 10))). apply wnr_read. intros _. apply c07r_fin_ok.
+Qed.
+
+(* the parent [0] reads 0, then 20 inside its two overrides; the child [1] reads the parent's 20, its own 30, blocks on a
+   batch item; after the flush it reads 30 again (its layer and the parent's were re-applied), 20 after leaving its block;
+   the parent reads 20, 10, 0 on the way out *)
+Lemma c07r_demo_runs :
+  let P := mkP [] 1000 false [] in
+  let h := fst (create [] (FTask c07r_demo) (st0 P)) in
+  let s1 := snd (create [] (FTask c07r_demo) (st0 P)) in
+  rtree0 c07r_demo /\ wnr [] c07r_demo /\ pointwise P /\ no_unwind_b P 100 (start h s1) = true /\
+  c_mode (run P 100 (start h s1)) = MDone (Ok (VInt 5)) /\ eval (erase c07r_demo) = Ok (VInt 5) /\
+  filter c07r_obs (rev (trace (c_st (run P 100 (start h s1))))) =
+    [EvRead [0] 0 (VInt 0); EvRead [0] 0 (VInt 20); EvRead [1] 0 (VInt 20); EvRead [1] 0 (VInt 30);
+     EvFlush 0 0 [[2]]; EvRead [1] 0 (VInt 30); EvRead [1] 0 (VInt 20); EvRead [0] 0 (VInt 20);
+     EvRead [0] 0 (VInt 10); EvRead [0] 0 (VInt 0)]%Z.
+Proof.
+  split; [apply c07r_demo_ok|]. split; [apply c07r_demo_ok|]. split; [intros kind; reflexivity|]. vm_compute.
+  repeat match goal with |- _ /\ _ => split end; reflexivity.
+Qed.
+
+(* STATUS.  Milestone 1 is complete: the stuttering simulation (step_est, step_read_est, run_est, sim_run) and the
+   transported theorems (Section Transport).  Not done: programs BRANCHING on read values (class rtree, evalV / resolve,
+   Milestone 2). *)
